@@ -38,7 +38,8 @@ impl Add<usize> for ProgramCounter {
     type Output = ProgramCounter;
 
     fn add(self, rhs: usize) -> Self::Output {
-        Self(self.0 + rhs)
+        // Every program counter that reaches a segment was range-checked; this only has to stay total
+        Self(self.0.wrapping_add(rhs))
     }
 }
 
